@@ -307,12 +307,13 @@ func genRegistryCase(t *rapid.T) RegistryCase {
 // reference model
 
 type refState struct {
-	w        *world
-	models   []map[string]bool
-	zeroOK   []bool              // last successful listing was non-empty but held no usable entry
-	drop     []map[string]dropInfo // (ep, name) -> how (and when) the endpoint stopped listing it
-	add      []map[string]string
-	okCount  int
+	w         *world
+	models    []map[string]bool
+	zeroOK    []bool                // last successful listing was non-empty but held no usable entry
+	drop      []map[string]dropInfo // (ep, name) -> how (and when) the endpoint stopped listing it
+	add       []map[string]string
+	okCount   int
+	stepStart int
 }
 
 type dropInfo struct {
@@ -364,9 +365,28 @@ func (r *refState) remove(ep int) {
 	r.okCount++
 }
 
+// label qualifies a drop cause by when the drop happened relative to the step being judged:
+// in this very step (plain cause), in this round next to other successful updates
+// ("+concurrent-update"), or in an earlier step after which everything still was consistent
+// ("+resurfaced").
+func (r *refState) label(d dropInfo) string {
+	switch {
+	case d.seq < 0:
+		return d.cause
+	case d.seq < r.stepStart:
+		return d.cause + "+resurfaced"
+	case r.okCount-r.stepStart > 1:
+		return d.cause + "+concurrent-update"
+	}
+	return d.cause
+}
+
+// beginStep marks the start of a step / round for label.
+func (r *refState) beginStep() { r.stepStart = r.okCount }
+
 func (r *refState) dropCause(ep int, name string) string {
 	if c, ok := r.drop[ep][name]; ok {
-		return c.cause
+		return r.label(c)
 	}
 	return "never-listed"
 }
@@ -388,7 +408,7 @@ func (r *refState) relatedDropCause(ep int, name string) string {
 			}
 		}
 	}
-	return best.cause
+	return r.label(best)
 }
 
 func (r *refState) addCause(ep int, name string) string {
@@ -467,6 +487,7 @@ type uniObs struct {
 type observation struct {
 	Listing     map[string][]string `json:"listing"`
 	Lookup      map[string][]string `json:"lookup"`
+	BaseLookup  map[string][]string `json:"base_lookup,omitempty"` // unified only: the embedded plain registry's index
 	Avail       map[string]bool     `json:"avail"`
 	Endpoints   int                 `json:"stats_endpoints"`
 	Models      int                 `json:"stats_models"`
@@ -510,6 +531,21 @@ func observe(w *world, reg domain.ModelRegistry, uni *registry.UnifiedMemoryMode
 		sort.Strings(eps)
 		o.Lookup[n] = eps
 		o.Avail[n] = reg.IsModelAvailable(ctx, n)
+		if uni != nil {
+			// the unified registry answers from the embedded plain registry first and only falls back to
+			// the catalogue when that is empty; the fallback can hide a broken index, so look at it too
+			beps, err := uni.MemoryModelRegistry.GetEndpointsForModel(ctx, n)
+			if err != nil {
+				o.Errs = append(o.Errs, fmt.Sprintf("MemoryModelRegistry.GetEndpointsForModel(%q): %v", n, err))
+				continue
+			}
+			beps = append([]string{}, beps...)
+			sort.Strings(beps)
+			if o.BaseLookup == nil {
+				o.BaseLookup = map[string][]string{}
+			}
+			o.BaseLookup[n] = beps
+		}
 	}
 	st, err := reg.GetStats(ctx)
 	if err != nil {
@@ -645,7 +681,7 @@ func judge(r *refState, o *observation, opt judgeOpts) []ev.Violation {
 		best := -1
 		for i := range r.drop {
 			if d, ok := r.drop[i][n]; ok && d.seq > best {
-				cause, best = d.cause, d.seq
+				cause, best = r.label(d), d.seq
 			}
 		}
 		switch {
@@ -655,6 +691,31 @@ func judge(r *refState, o *observation, opt judgeOpts) []ev.Violation {
 			bad("stale-attribution/"+cause+"/available", "IsModelAvailable(%q) = true although no endpoint's last successful listing contains it", n)
 		case len(want) == 0 && avail && !opt.baseOnly && !anyRelated:
 			bad("stale-attribution/"+uniCause(r.relatedDropCause(-1, n))+"/unified-available", "IsModelAvailable(%q) = true although no endpoint currently lists it or a name equal up to case / sharing a digest", n)
+		}
+	}
+
+	// unified only: the embedded plain registry's model -> endpoints index (exact semantics)
+	for _, n := range r.w.names {
+		gotL, ok := o.BaseLookup[n]
+		if !ok {
+			continue
+		}
+		want := r.endpointsOf(n)
+		got := map[int]bool{}
+		for _, u := range gotL {
+			if i, known := urlIdx[u]; known {
+				got[i] = true
+			} else {
+				bad("stale-attribution/unknown-endpoint/base-lookup", "MemoryModelRegistry.GetEndpointsForModel(%q) returned %q which is not an endpoint of this history", n, u)
+			}
+		}
+		for i := range r.w.urls {
+			switch {
+			case got[i] && !want[i]:
+				bad("stale-attribution/"+r.dropCause(i, n)+"/base-lookup", "the unified registry's embedded MemoryModelRegistry.GetEndpointsForModel(%q) = %v includes ep%d whose last successful listing does not contain it", n, gotL, i)
+			case !got[i] && want[i]:
+				bad("lost-attribution/"+r.addCause(i, n)+"/base-lookup", "the unified registry's embedded MemoryModelRegistry.GetEndpointsForModel(%q) = %v misses ep%d whose last successful listing contains it", n, gotL, i)
+			}
 		}
 	}
 
@@ -779,6 +840,9 @@ func diffObs(a, b *observation) string {
 		}
 		if a.Avail[n] != b.Avail[n] {
 			d = append(d, fmt.Sprintf("IsModelAvailable(%q) %v -> %v", n, a.Avail[n], b.Avail[n]))
+		}
+		if fmt.Sprint(a.BaseLookup[n]) != fmt.Sprint(b.BaseLookup[n]) {
+			d = append(d, fmt.Sprintf("embedded MemoryModelRegistry.GetEndpointsForModel(%q) %v -> %v", n, a.BaseLookup[n], b.BaseLookup[n]))
 		}
 	}
 	if a.Endpoints != b.Endpoints || a.Models != b.Models || fmt.Sprint(a.PerEndpoint) != fmt.Sprint(b.PerEndpoint) {
@@ -1057,6 +1121,7 @@ func runSequential(c RegistryCase, reg domain.ModelRegistry, uni *registry.Unifi
 		if dropsShared(ref, op) {
 			nt.sharedDrop = true
 		}
+		ref.beginStep()
 		applyRef(ref, op)
 		opt.hist = hist
 		o := settledObservation(base, take, func(o *observation) bool { return len(judge(ref, o, opt)) == 0 })
@@ -1177,10 +1242,45 @@ func runConcurrent(c RegistryCase, reg domain.ModelRegistry, uni *registry.Unifi
 		if multi {
 			rec.Class("burst=several-updates-of-one-endpoint")
 		}
-		if uni != nil && multi {
+		// does some endpoint's listing shrink inside the burst? (goroutines own disjoint endpoints, so
+		// simulating every queue on its own is exact)
+		shrinks := false
+		simEP := map[int]map[string]bool{}
+		for _, q := range queues {
+			for _, op := range q {
+				switch op.Kind {
+				case kindRemove:
+					if len(simEP[op.EP]) > 0 {
+						shrinks = true
+					}
+					simEP[op.EP] = nil
+				case kindReg, kindRegEP:
+					nw := map[string]bool{}
+					for _, nm := range namesOf(op.Models) {
+						nw[nm] = true
+					}
+					for nm := range simEP[op.EP] {
+						if !nw[nm] {
+							shrinks = true
+						}
+					}
+					simEP[op.EP] = nw
+				}
+			}
+		}
+		shrinkKnown := knownStaleFamily("replace-with-fewer") || knownStaleFamily("replace-with-empty") || knownStaleFamily("remove")
+		switch {
+		case uni != nil && shrinks && shrinkKnown:
+			// Every shrinking update already leaves stale catalogue entries when issued sequentially
+			// (listed findings), and which of them shows depends on the cross-endpoint order. A burst
+			// cannot be judged beyond the plain indexes until those are repaired.
+			rec.AddExtra("excluded_known", 1)
+			rec.Class("burst=unified-catalogue-not-judged-because-of-listed-shrink-findings")
+			opt.baseOnly = true
+		case uni != nil && multi:
 			// Shadow run: the same per-goroutine sequences, interleaved round-robin, one op at a time
-			// with quiescence in between, on a second registry. Only if that is clean can a mismatch
-			// after the burst be blamed on the order in which the background unifications applied.
+			// with quiescence in between, on a second registry. Only if that is clean is a mismatch
+			// after the burst blamed on the order in which the background unifications applied.
 			var inter []Op
 			for r := 0; ; r++ {
 				any := false
@@ -1203,12 +1303,12 @@ func runConcurrent(c RegistryCase, reg domain.ModelRegistry, uni *registry.Unifi
 				return vs
 			}
 			base = runtime.NumGoroutine()
+			opt.burst = true
 		}
 		out := runBatch(queues)
 		if account(out) {
 			return nil
 		}
-		opt.burst = uni != nil && multi
 		opt.hist = "burst " + strings.Join(done, "; ")
 		o := settledObservation(base, take, func(o *observation) bool { return len(judge(ref, o, opt)) == 0 })
 		return judge(ref, o, opt)
@@ -1228,6 +1328,7 @@ func runConcurrent(c RegistryCase, reg domain.ModelRegistry, uni *registry.Unifi
 			return nil
 		}
 		done = append(done, fmt.Sprintf("[round %d]", r))
+		ref.beginStep()
 		out := runBatch(batch)
 		if account(out) {
 			return nil
